@@ -38,7 +38,7 @@ class C07(Prop):
     shard = 100
     case_timeout = 20
     nontrivial_rule = ("random histories on real Container/Store/PriorityStore/FilterStore objects: 1-8 driver processes, "
-                       "amounts from {1,2,3,5,1/2} (plus rare invalid 0/-1), capacities 1..10 / n+1/2 / infinite, initial levels, "
+                       "amounts from {1,2,3,5,1/2} (plus rare invalid 0/-1), capacities 1..10 / k/2 (also for stores) / infinite, initial levels, "
                        "items with priorities from a 3-element set (ties common, repeated items), filters 'item = r mod m', "
                        "put/get in modes wait / nowait / patience (with-block + timeout, then cancel), cancels of arbitrary "
                        "(head, non-head, triggered, already cancelled) requests, delays from {0,1,2,1/2,3}; "
@@ -57,8 +57,7 @@ class C07(Prop):
     assumptions = [
         "requests are triggered only by the resource (nobody calls succeed()/fail() on a pending request by hand)",
         "Container: 0 <= init <= capacity, as the constructor enforces; stores start empty",
-        "store_bounded theorems: the capacity of a Store is a whole number or infinite (with capacity 2.5 the guard "
-        "len(items) < capacity admits a third item: known finding store-over-fractional-capacity)",
+        "store_bounded theorems: capacity > 0 or infinite, as the constructor enforces (fractional capacities included)",
         "PriorityStore items are compared by `<` on an integer key (PriorityItem.priority)",
     ]
     partial = []
@@ -85,8 +84,8 @@ class C07(Prop):
             cap = None
         elif u < 0.35 and kind == "container":
             cap = qj(F(rng.randint(1, 10)) + F(1, 2))
-        elif u < 0.265:                         # a store with a fractional capacity (known finding)
-            cap = qj(F(rng.randint(1, 4)) + F(1, 2))
+        elif u < 0.40:                          # a store with a fractional capacity k/2
+            cap = qj(F(rng.randint(1, 9), 2))
         else:
             cap = qj(rng.randint(1, 10) if kind == "container" else rng.choice([1, 1, 2, 2, 3, 4, 6, 10]))
         case = {"kind": kind, "cap": cap, "t0": rng.choice(["0/1", "0/1", "1/2", "3/1"])}
@@ -361,7 +360,7 @@ class C07(Prop):
         def satisfiable_put(snap, p):
             if kind == "container":
                 return cap is None or cap - fr(snap["c"]) >= fr(p)
-            return cap is None or len(snap["c"]) < cap
+            return cap is None or len(snap["c"]) + 1 <= cap      # room for one more item
 
         def satisfiable_get(snap, p):
             if kind == "container":
@@ -473,8 +472,7 @@ class C07(Prop):
                     bad(f"level-not-conserved: {where}: level {lv}, init + granted puts - granted gets = {level}")
             else:
                 if cap is not None and len(snap["c"]) > cap:
-                    slug = "store-over-capacity" if cap.denominator == 1 else "store-over-fractional-capacity"
-                    bad(f"{slug}: {where}: {len(snap['c'])} items, capacity {case['cap']}")
+                    bad(f"store-over-capacity: {where}: {len(snap['c'])} items, capacity {case['cap']}")
                 if sorted(map(repr, snap["c"])) != sorted(map(repr, held)):
                     bad(f"items-not-conserved: {where}: held {snap['c']}, accepted minus delivered {held}")
                 elif kind != "prio" and snap["c"] != held:
